@@ -58,6 +58,7 @@ def run(ctx) -> None:
   ctx.rule('R4', 'sign flip swaps both goals and multiplies objective values by -1.0', 2)
   ctx.rule('R5', 'NumpyExperimenter: raw-value converter; every path completes or marks infeasible', 2)
   ctx.rule('R6', 'shifting wrapper shrinks the declared bounds on the side the shift leaves', 1)
+  ctx.import_rules('C14', {'R1'}, 'R7', 'seeded noise/permutation wrappers use no ambient entropy (process hash seed, clock, global RNG)')
   subs = [c for c in ctx.index.subclasses(EXP) if c.file.startswith(DIR)]
   if len(subs) < 20:
     raise AnalysisError(f'only {len(subs)} Experimenter subclasses found under {DIR}')
